@@ -230,7 +230,12 @@ def specTotal (c : Case) : Option (String × String) :=
       else if what.startsWith "runtime error: invalid memory address" then "panic:nil-deref"
       else if what.startsWith "runtime error: index out of range" then "panic:index"
       else "panic:other"
-    some (sig, s!"{c.outcome} ep={c.ep} u16={c.u16} src={srcHex}")
+    -- the harness appends " @<innermost d2 function>": part of the signature, so that a finding about one panic
+    -- site cannot absorb a panic somewhere else
+    let site := match c.outcome.splitOn " @" with
+      | [_] => ""
+      | parts => "@" ++ (parts.getLast?.getD "")
+    some (sig ++ site, s!"{c.outcome} ep={c.ep} u16={c.u16} src={srcHex}")
   else if c.outcome == "timeout" then some ("timeout", s!"no result within the time limit ep={c.ep} src={srcHex}")
   else if c.outcome != "ok" then some ("outcome", c.outcome)
   else match c.out.getObjVal? "tree", c.out.getObjVal? "errs" with
